@@ -557,5 +557,30 @@ def interleaved(lab):
     return plan(), d
 
 
-CORPUS = dict(interleaved=interleaved, monitor_meta=monitor_meta, monitor_mid=monitor_mid, stubbed=stubbed, sparse=sparse, two_runs_cleared=two_runs_cleared, late_wait=late_wait, norewind_section=norewind_section, configure_mid=configure_mid, count_norewind=count_norewind, declared=declared, double_stage=double_stage, failpause=failpause, defer_failpause=defer_failpause, count2=count2, scan2=scan2, scan3=scan3, rel_scan2=rel_scan2, list_scan2=list_scan2, grid2x2=grid2x2, adaptive=adaptive, tune=tune,
+def retry_close(lab):
+    """A run whose close_run may fail (a monitor is still active); the plan catches the error and closes the run again as failed."""
+    from bluesky.utils import Msg
+
+    d = _std(lab)
+    sig, det = d["sig"], d["det"]
+
+    def plan():
+        yield Msg("open_run", run="a", key="a")
+        yield Msg("open_run", run="b", key="b")
+        yield Msg("monitor", sig, name="sig_monitor", run="b")
+        yield Msg("checkpoint")
+        yield Msg("create", name="primary", run="a")
+        yield Msg("read", det, run="a")
+        yield Msg("save", run="a")
+        try:
+            yield Msg("close_run", run="b", exit_status="success", reason="")
+        except Exception as e:  # noqa
+            yield Msg("null", None, "close failed: " + type(e).__name__)
+            yield Msg("close_run", run="b", exit_status="fail", reason="first close failed")
+        yield Msg("close_run", run="a", exit_status="success", reason="")
+
+    return plan(), d
+
+
+CORPUS = dict(retry_close=retry_close, interleaved=interleaved, monitor_meta=monitor_meta, monitor_mid=monitor_mid, stubbed=stubbed, sparse=sparse, two_runs_cleared=two_runs_cleared, late_wait=late_wait, norewind_section=norewind_section, configure_mid=configure_mid, count_norewind=count_norewind, declared=declared, double_stage=double_stage, failpause=failpause, defer_failpause=defer_failpause, count2=count2, scan2=scan2, scan3=scan3, rel_scan2=rel_scan2, list_scan2=list_scan2, grid2x2=grid2x2, adaptive=adaptive, tune=tune,
               fly1=fly1, bare=bare, cleanup=cleanup, staged_monitor=staged_monitor, nested_runs=nested_runs, flymon=flymon)
